@@ -6,9 +6,10 @@ HERE = os.path.dirname(os.path.dirname(os.path.abspath(__file__)))
 props = [json.loads(l) for l in open(os.path.join(HERE, 'properties.jsonl'))]
 ids = [p['id'] for p in props]
 checks, na = [], []
+enabled = set(open(os.path.join(HERE, 'manifest.d', 'ENABLED.txt')).read().split())
 for pid in ids:
     f = os.path.join(HERE, 'manifest.d', pid + '.json')
-    if os.path.exists(f):
+    if os.path.exists(f) and pid in enabled:
         frag = json.load(open(f))
         if 'not_applicable' in frag:
             na.append({'property_id': pid, 'reason': frag['not_applicable']})
